@@ -165,7 +165,7 @@ def compare_phase_runs(base_order, mb, order, mo, F, cnt):
 def perm_close(a, b, what, F, ctx, rtol=1e-8, atol=1e-10):
     if a is None or b is None:
         if (a is None) != (b is None):
-            F.add('C11.element_order', f'{what}: one order returned no result, the other did', **ctx)
+            F.add('C11.element_availability', f'{what}: one order returned no result, the other did', **ctx)
         return
     a = np.asarray(a, dtype=float); b = np.asarray(b, dtype=float)
     if a.shape != b.shape:
@@ -187,7 +187,7 @@ def elements_thermo(rec, F, cnt):
         dgA, cA = tA.getDrivingForce(x, T, precPhase='FCC_L12', removeCache=True)
         dgB, cB = tB.getDrivingForce(xs, T, precPhase='FCC_L12', removeCache=True)
         if dgA is None or dgB is None:
-            perm_close(dgA, dgB, f'driving force at x={pt["x"]} T={T}', F, ctx)
+            perm_close(dgA, dgB, f'driving force at x={pt["x"]} T={T}', F, dict(ctx, q='driving_force'))
         else:
             perm_close(np.squeeze(dgA), np.squeeze(dgB), f'driving force at x={pt["x"]} T={T}', F, ctx, rtol=1e-7, atol=1e-4)
             perm_close(np.squeeze(cA), np.squeeze(cB)[::-1], f'precipitate composition from the driving force at x={pt["x"]} T={T}', F, ctx, rtol=1e-6, atol=1e-8)
@@ -202,7 +202,7 @@ def elements_thermo(rec, F, cnt):
         cuA = tA.curvatureFactor(x, T, precPhase='FCC_L12', removeCache=True, computeSearchDir=True)
         cuB = tB.curvatureFactor(xs, T, precPhase='FCC_L12', removeCache=True, computeSearchDir=True)
         if cuA is None or cuB is None:
-            perm_close(None if cuA is None else 1, None if cuB is None else 1, f'curvature factor at x={pt["x"]} T={T}', F, ctx)
+            perm_close(None if cuA is None else 1, None if cuB is None else 1, f'curvature factor at x={pt["x"]} T={T}', F, dict(ctx, q='curvature_two_phase_search'))
         else:
             scale = float(np.max(np.abs(cuA.dc)))
             perm_close(cuA.dc, np.asarray(cuB.dc)[::-1], f'curvature dc at x={pt["x"]} T={T}', F, ctx, rtol=1e-6, atol=1e-9 * scale)
